@@ -1,4 +1,5 @@
 import DesperProofs.Lemmas.WorldLog
+import DesperProofs.Lemmas.WorldPWorld
 /-
   C07 — Processors run once per frame in priority order, one per type.
 
@@ -111,6 +112,28 @@ theorem C07_explicit_priority (U : Universe) (s : St) (p : Obj) (v : Int) :
   have : s1.prio = Dict.set s.prio p v := h.prio
   simp [priority, this, Dict.get?_set]
 
+/-- The added processor knows its world: whenever `add_processor` returns normally,
+`processor.world` has been set to this world (`pworld`, world.py:408) — also when it replaced an
+older instance of its type, whose `on_remove` ran first. -/
+theorem C07_knows_world (U : Universe) [U.NoReenter] (s : St) (p : Obj) (prio? : Option Int)
+    (hok : (addProcessor U s p prio?).2 = .ok) :
+    p ∈ (addProcessor U s p prio?).1.pworld := by
+  have key : ∀ r : St × Outcome,
+      (match r with
+        | (s, .ok) => attachEvents U (insertProc U (setPrio s p prio?) p) p none
+        | r => r).2 = .ok →
+      p ∈ (match r with
+        | (s, .ok) => attachEvents U (insertProc U (setPrio s p prio?) p) p none
+        | r => r).1.pworld := by
+    rintro ⟨s1, o1⟩ h
+    cases o1 with
+    | ok =>
+      show p ∈ (attachEvents U (insertProc U (setPrio s1 p prio?) p) p none).1.pworld
+      rw [attachEvents_pworld]
+      exact (mem_setAdd _ _ _).mpr (.inr rfl)
+    | _ => cases h
+  exact key _ hok
+
 /-! non-vacuity: three processor classes, priorities 1, 0 (explicit), 0 (tie, added later) -/
 private def exU : Universe :=
   { classes := [{ bases := [], isProc := true, prio := 1 }, { bases := [], isProc := true, prio := 5 },
@@ -121,4 +144,8 @@ example :
     let s := run exU {} [.addProc 0 none, .addProc 1 (some 0), .addProc 2 none]
     s.sorted = [1, 2, 0] ∧ (clearDead exU s).2 = .ok ∧
     procEntries (process exU s "7").1.log = [(0, "7"), (2, "7"), (1, "7")] := by
+  decide
+
+/-- non-vacuity of `C07_knows_world`: adding returns normally and the processor knows its world -/
+example : (addProcessor exU {} 1 (some 0)).2 = .ok ∧ 1 ∈ (addProcessor exU {} 1 (some 0)).1.pworld := by
   decide
